@@ -122,7 +122,7 @@ func init() {
 			"configuration: every field of the YAML description of a transformation is read by its AsCompilerPass method (structural obligation over go/ssa, one per field); what the method does with it is not specified",
 			"matching is specified explicitly: package compared exactly, object and field names with strings.EqualFold (assumed an equivalence coarser than ==)",
 			"appends to trails/comments may write into spare capacity of an existing backing array (`modifies spare-capacity`): assumed unobservable (no IR slice overlaps another slice's spare capacity)",
-			"transformations not covered: prefix_objects_names, fields_set_default (map-ordered), hint_object, omit/omit_fields/duplicate_object filters unless listed in functions_under_contract",
+			"transformations under contract are exactly the ones in functions_under_contract (prefix_objects_names, hint_object, fields_set_default, duplicate_object, omit, omit_fields, rename_object, replace_reference, retype_*, add_fields, add_object, constant_to_enum, trim_enum_values, fields_set_required/not_required, schema_set_*, append_comment); the other schema transformations are not covered",
 		},
 	}
 	propSpecs["C17"] = &PropSpec{
@@ -142,7 +142,7 @@ func init() {
 			"disjunction_as_options: a def-use obligation over go/ssa requires every sibling option to be built from a deep copy taken in its own loop iteration (independence of the copy is C18's claim); the action itself is not under a functional contract",
 			"merge_into / compose: ast.Path.Append is under contract (a fresh array holding receiver ++ suffix, nothing pre-existing written) and a def-use obligation generated from the SSA of mergeBuilderInto requires every path of a copied assignment to be built by underPath.Append(old path) and nothing else; the loops of mergeBuilderInto (which options are copied, renamed, excluded) are not under contract",
 			"scope: rule contracts of the builder rules omit / rename, the option actions rename / rename_arguments / omit / duplicate / add_comments / array_to_append / map_to_index / unfold_boolean and the by-name selectors: each states what comes back for a selected builder/option (including what is kept: arguments, assignments, target paths, defaults) and that non-applicable inputs come back unchanged",
-			"NOT covered by this check: the rewriter glue (Rewriter.ApplyTo / applyBuilderRules / applyOptionRules) that applies rules behind selectors, sequences of rules, path well-typedness after MakePath, and the remaining rules (duplicate builder, properties, initialize, promote_to_constructor, add_option, add_factory, struct_fields_as_*, disjunction_as_options, add_assignment; merge_into / compose only as far as the re-rooting of paths goes)",
+			"NOT covered by this check: Rewriter.ApplyTo / applyBuilderRules (applyOptionRules is under an at-call obligation: a rule is applied only to options its selector selected), sequences of rules, and the remaining rules (promote_to_constructor, add_option, add_assignment, disjunction_as_options beyond the sibling-copy obligation; merge_into / compose only as far as the re-rooting of paths goes; struct_fields_as_arguments / _options only write frames)",
 			"selectors are values of a `pure` function type: their answer is a function of the selector value and the argument values",
 			"appends may write into spare capacity of an existing backing array (`modifies spare-capacity`): assumed unobservable; panic-freedom of the same closures is C04's claim",
 		},
@@ -165,17 +165,19 @@ func init() {
 	}
 	propSpecs["C05"] = &PropSpec{
 		ID:       "C05",
-		Patterns: []string{"./internal/ast", "./internal/ast/compiler", "./internal/orderedmap", "./internal/tools"},
+		Patterns: []string{"./internal/ast", "./internal/ast/compiler", "./internal/orderedmap", "./internal/tools", "./internal/jsonschema", "./internal/openapi"},
 		Level:    "proof",
 		Prepare:  func(e *Engine) { e.assumeKindInv = true },
 		Opts: func(e *Engine, key string) VerifyOpts {
 			return VerifyOpts{OnlyKinds: []string{"pre", "post", "frame", "inv-init", "inv-pres", "cover", "call"}, PathCovers: true}
 		},
-		Extra: func(e *Engine, tier string) []*FuncResult { return []*FuncResult{e.refKindsResult()} },
+		Extra: func(e *Engine, tier string) []*FuncResult {
+			return []*FuncResult{e.refKindsResult(), e.parserDeclaresResult()}
+		},
 		Assumptions: []string{
-			"scope: the name-changing transformations rename_object and name prefixing. (1) selection consistency: the object part and the reference part of rename_object are specified by one selection predicate (package exact, name case-insensitive), prefixing applies the same prefix to objects, references and constant references; (2) the entry point name is kept in step with the renamed object (Process-level contracts over an ASSUMED contract of Visitor.VisitSchemas: same length, distinct fresh schemas, package/metadata/entry point carried over, pass structs not written); (3) structural obligations: the visitors of rename_object, name prefixing and allowed_objects handle every reference-carrying kind of ast.Type (derived from its declaration)",
-			"NOT covered: that parsers only emit resolving references, duplicate_object, unspec, replace_reference towards an existing object, discriminator mappings and hints as reference positions, the transitive-closure loop of allowed_objects beyond the kinds its visitor handles, the built-in language chains",
-			"the Visitor's traversal (which nested types it reaches) is assumed, not verified",
+			"scope (1) name-changing transformations: rename_object (one selection predicate - package exact, name case-insensitive - for the object, references and constant references; entry point kept in step), name prefixing (the same prefix on objects, references, constant references, discriminator mappings, the mapping copy kept in hints, enum/struct positions; entry point kept in step), duplicate_object (the copy is registered under the new name with a matching SelfRef; the original is kept), replace_reference.processRef, disjunction_to_type (the reference returned names the object that was registered); (2) allowed_objects: the closures of FilterSchemas (reference followed => added to the allow list; kept objects are exactly the listed ones) with Schemas.Locate; (3) the shared Visitor from VisitType down is VERIFIED (dispatch by kind, callback delegation, descent into every nested type, results stored in place, registry of new objects); VisitSchemas is assumed (same length, fresh schemas, package/metadata/entry point carried over); (4) structural obligations: the visitors of rename_object, name prefixing and allowed_objects handle every reference-carrying kind of ast.Type (from its declaration), and every callback of these visitors is under contract; (5) parsers (jsonschema, openapi): in every function from which declareDefinition is reachable the error of such a call is propagated or tested against a sentinel the package never produces - a name recorded as declared gets its object or the parse fails",
+			"NOT covered: the full ghost-set argument for the parsers (every Ref constructed names a recorded definition; the simplecue front end), unspec, the transitive-closure fixpoint of allowed_objects as a whole, composition of a complete language chain (per-pass contracts only)",
+			"map index types are visited by VisitMap; reference positions inside hints other than the discriminator mapping copy are not modelled",
 		},
 	}
 	propSpecs["C06"] = &PropSpec{
@@ -198,7 +200,7 @@ func init() {
 			"scope (2), pass level: local postconditions of not_required_as_nullable (a non-required field comes back nullable), disjunction_with_null_to_optional (a two-branch T|null union comes back as T made nullable, other unions unchanged), prefix_enum_values (types and values of members kept), with Types.HasNullType / NonNullTypes under contract",
 			"scope (3): the shared Visitor that carries every pass to the nested occurrences (arrays, maps, union and intersection branches, struct fields) is under contract from VisitType down (dispatch by kind, delegation to the registered callback, descent into every nested type, results stored in place); VisitSchema / VisitSchemas are assumed",
 			"scope (4): disjunction_to_type returns a leaf (a scalar or a reference) for every union it is given, so nothing nested survives in the replacement; only this postcondition of processDisjunction is claimed (the preconditions of the visitor's object registry and of Type.AsScalar at its call sites are not established here)",
-			"NOT proved: the deep `anywhere in the IR` normal forms as such (they need recursive predicates over type trees and the induction over the tree, which stay a paper argument over the per-method contracts); AnonymousStructsToNamed, AnonymousEnumToExplicitType, the identifier rules of enum member names (string theory), and objects created by earlier passes are not under contract",
+			"NOT proved: the deep `anywhere in the IR` normal forms as such (they need recursive predicates over type trees and the induction over the tree, which stay a paper argument over the per-method contracts of the passes and the verified Visitor); the identifier rules of enum member names (string theory) and objects created by earlier passes are not under contract; anonymous_structs_to_named and anonymous_enum_to_explicit_type are under local contracts (what comes back for each kind is a reference to a registered object / the nested results stored in place)",
 		},
 	}
 	propSpecs["C10"] = &PropSpec{
@@ -257,7 +259,7 @@ func init() {
 				}
 			}
 			// a locked site that no longer exists as a map range is fine (it cannot be order dependent any more)
-			out = append(out, e.nondetScanResult(), e.newSitesResult(), e.helperCallersResult())
+			out = append(out, e.nondetScanResult(), e.newSitesResult(), e.helperCallersResult(), e.keyedSitesResult())
 			return out
 		},
 		Assumptions: []string{
